@@ -8,11 +8,17 @@
    The recording is symbolic: raw[i][c] = (i, c), gain[c] = c, cal (i,c) g = (i,c,g).
    output: [1; e]  exception (1 IndexError, 2 ValueError, 3 NotImplementedError, 9 internal)
            [2]     returns None
+   api 3 (channel order of Reader(file, sort=srt), through C08's geometry model):
+     input  [3; gen; enc; srt; split; nc; n; shank_0; a_0; b_0; flag_0; ...]
+            gen -1 none | 0 NP1 | 1 NP2.1 | 2 NP2.4 | 3 NPultra; enc 0 shank map | 1 geometry map
+            | 2 no map; split -1 or the NP2.4_shank value
+     output 1 :: raw_channel_order   or [0] (outside the model's domain)
            0 :: row_dropped :: col_dropped :: nrows :: ncols :: cells (sample, disk channel,
            gain index for each cell, row-major). *)
 From Coq Require Import ZArith List Bool.
 From IBL.lib Require Import PyInt RunLib.
-From IBL.C01 Require Import Model.
+From IBL.C01 Require Import Model Geometry.
+Require IBL.C08.Run.
 Import ListNotations.
 Open Scope Z_scope.
 
@@ -56,8 +62,23 @@ Definition enc_result (r : result (Z * Z * Z)) : list Z :=
   0 :: enc_bool rd :: enc_bool cd :: Z.of_nat (length cells) :: ncols
     :: flat_map (flat_map enc_cell) cells.
 
+Definition run_order (inp : list Z) : list Z :=
+  match inp with
+  | g :: e :: srt :: split :: nc :: n :: rest =>
+      let sites := IBL.C08.Run.dec_sites (Z.to_nat n) rest in
+      match reader_channel_order nc
+              (if g <? 0 then None else Some (IBL.C08.Run.dec_gen g))
+              (if e =? 0 then Some IBL.C08.Model.ShankMap else if e =? 1 then Some IBL.C08.Model.GeomMap else None)
+              sites (if split <? 0 then None else Some split) (srt =? 1) with
+      | Some o => 1 :: o
+      | None => [0]
+      end
+  | _ => [-999]
+  end.
+
 Definition run (inp : list Z) : list Z :=
   match inp with
+  | 3 :: r => run_order r
   | api :: cb :: nb :: r0 =>
       let '(bounds, r1) := take_z nb r0 in
       match r1 with
